@@ -194,7 +194,7 @@ def run(replay=None):
     L = 4 if t == "quick" else 5
     ndeep = 6000 if t == "quick" else 60000
     # 1. exhaustive, design level + emission
-    r1 = C.run_tlc(wd, "SolverGen", cfg(ALPHA_QUICK, L, True, "enum"))
+    r1 = C.run_tlc(wd, "SolverGen", cfg(ALPHA_QUICK, L, True, "enum"), extra=["-continue"])
     if r1.violated:
         # a design-level disagreement between machine transcription and ideal; it only becomes a
         # violation if the real code reproduces it (the records are replayed below anyway)
@@ -205,7 +205,7 @@ def run(replay=None):
     deep = deep_strings(ndeep, sd + 17)
     fin = os.path.join(wd, "deep.json")
     json.dump(deep, open(fin, "w"))
-    r2 = C.run_tlc(wd, "SolverGen", cfg(ALPHA_QUICK, 0, True, "file"), env={"SOLVER_IN": fin})
+    r2 = C.run_tlc(wd, "SolverGen", cfg(ALPHA_QUICK, 0, True, "file"), env={"SOLVER_IN": fin}, extra=["-continue"])
     if r2.violated:
         V.notes.append("TLC (deep): machine spec disagrees with ideal: " + r2.cex[:500])
     recs = recs + r2.records
